@@ -1062,6 +1062,17 @@ fn c08(cx: &mut Ctx<'_, '_>) {
         if out.evs.last().map(|r| &r.ev) != Some(&Ev::Finished) {
             v.push(("no-run-finished".into(), "stream did not end with run-Finished".into()));
         }
+        // every started feature and rule still gets its Finished
+        for r in out.evs.iter().filter(|r| r.ev == Ev::FeatStarted) {
+            if !out.evs[r.idx..].iter().any(|e| e.ev == Ev::FeatFinished && e.f == r.f) {
+                v.push(("feature-not-finished".into(), format!("{} has no Finished", r.short())));
+            }
+        }
+        for r in out.evs.iter().filter(|r| r.ev == Ev::RuleStarted) {
+            if !out.evs[r.idx..].iter().any(|e| e.ev == Ev::RuleFinished && e.r == r.r && e.f == r.f) {
+                v.push(("rule-not-finished".into(), format!("{} has no Finished", r.short())));
+            }
+        }
     }
     // after the first parser error nothing more is ingested
     if let Some(epos) = an.pulled_items.iter().position(|&i| !matches!(an.case.items[i], Item::Feat(_))) {
